@@ -17,7 +17,7 @@ ASSUMPTIONS = ["ownership of a kind = the package that defines its entity class 
                "iq results/errors are exercised through C08's request/reply path; encryption-specific stanzas through C03",
                "with the encryption layers present outgoing messages are judged at the probe below the protocol group"]
 REQUIRED = ["outgoing_cases", "incoming_cases", "expected_one_observed_one", "expected_zero_observed_zero", "selections", "kinds_outgoing", "kinds_incoming",
-            "with_enc", "without_enc", "send_handlers_seen", "direction_switches"]
+            "with_enc", "without_enc", "send_handlers_seen", "direction_switches", "reply_cases", "reply_one_entity", "reply_with_others_outstanding", "reply:error", "reply:result"]
 TIMEOUT = {"quick": 600, "thorough": 7200}
 
 INCOMING_FIXTURES = ["message_text", "message_media_contact", "message_media_downloadable_audio", "message_media_downloadable_image",
@@ -189,6 +189,71 @@ def check_incoming(acc, kit, name, cls, tree, sel, with_enc, w):
     acc.count("cell_in:%s" % name)
 
 
+def reply_rounds(acc, kit, sel, enc, sname, seed, rounds):
+    """Requests sent by the application without callbacks, then their result/error replies in random order while other
+    requests are still outstanding: every reply stanza must produce exactly one entity at the application side."""
+    from vf.props import c08
+    kinds = c08.request_kinds()
+    names = sorted(kinds)
+    for rd in range(rounds):
+        r = gen.rng(seed, ID, "replies/%s/%s/%d" % (sname, enc, rd))
+        k = r.choice([1, 2, 2, 3, 4])
+        pending = []
+        for _ in range(k):
+            name = r.choice(names)
+            try:
+                ent = kinds[name](r)
+                want = treeeq.to_tuple(ent.toProtocolTreeNode())
+            except Exception:
+                continue
+            owner = stackkit.owner_module(type(ent))
+            if owner is not None and not sel[owner]:
+                continue            # (absent module: covered by the outgoing cases, nothing leaves)
+            kit.clear()
+            try:
+                kit.send(ent)
+            except Exception as e:  # noqa
+                acc.violation("request-raises:%s:%s" % (name, type(e).__name__), "sending a %s request raised %r" % (name, e), {"dir": "request", "kind": name, "selection": sname, "enc": enc})
+                continue
+            if len(kit.mid.sent) != 1:
+                continue            # judged by the outgoing cases
+            pending.append((name, want))
+        r.shuffle(pending)
+        outstanding = [n for n, _ in pending]
+        for name, req in pending:
+            typ = r.choice(["result", "result", "error"])
+            st = c08.reply(r, name, req, typ)
+            kit.clear()
+            acc.count("reply_cases")
+            acc.count("reply:" + typ)
+            w = {"dir": "reply", "kind": name, "type": typ, "selection": sname, "enc": enc, "round": rd, "outstanding": list(outstanding), "stanza": treeeq.describe(st, 5)}
+            acc.case(["r", name, typ, sname, enc, rd, tuple(outstanding)], nontrivial=len(outstanding) > 1)
+            try:
+                kit.inject(st)
+            except Exception as e:  # noqa
+                acc.violation("reply-raises:%s:%s:%s" % (name, typ, type(e).__name__), "a %s reply to a %s request raised %r" % (typ, name, e), w)
+                outstanding.remove(name)
+                continue
+            got = kit.top.received
+            if len(got) != 1:
+                others = [o for o in outstanding if o != name]
+                acc.violation("reply-count:%s:%s:%d-for-1%s" % (name, typ, len(got), ":others-pending" if others and len(got) > 1 else ""),
+                              "a %s reply to a %s request produced %d entities at the application side (classes %s; other requests outstanding: %s)"
+                              % (typ, name, len(got), [type(x).__name__ for x in got], others), w)
+            else:
+                try:
+                    gid = got[0].getId()
+                except Exception:
+                    gid = None
+                if gid != st[1]["id"]:
+                    acc.violation("reply-id:%s:%s" % (name, typ), "the entity delivered for a %s reply carries id %r, the stanza %r" % (typ, gid, st[1]["id"]), w)
+                else:
+                    acc.count("reply_one_entity")
+                    if len(outstanding) > 1:
+                        acc.count("reply_with_others_outstanding")
+            outstanding.remove(name)
+
+
 def shards(tier, seed, nworkers):
     q = tier == "quick"
     sels = list(stackkit.selections())
@@ -273,6 +338,7 @@ def run(spec, acc):
                 w = {"dir": "in", "kind": name, "selection": sname, "enc": enc, "draw": k, "stanza": treeeq.describe(tree, 5)}
                 acc.case(["i", name, sname, enc, k], nontrivial=True)
                 check_incoming(acc, kit, name, cls, tree, sel, enc, w)
+        reply_rounds(acc, kit, sel, enc, sname, seed, spec["draws"] * 4)
     acc.counters["kinds_incoming"] = len(inc)
     acc.counters["kinds_outgoing"] = len(out)
     acc.sample({"selections": [stackkit.sel_name(sels[i]) for i, _ in spec["cells"]][:4], "incoming_kinds": [n for n, _, _ in inc][:8], "outgoing_kinds": sorted(out)[:8]})
